@@ -30,9 +30,12 @@ import (
 	"context"
 	"encoding/binary"
 	"fmt"
+	"io"
+	"math/big"
 	"os"
 	"sort"
 	"strings"
+	"sync"
 	"time"
 
 	quic "github.com/refraction-networking/uquic"
@@ -278,6 +281,7 @@ type udHello struct {
 	TP        []udParam
 	NTP       int // number of quic_transport_parameters extensions
 	ExtIDs    []uint16
+	Suites    []byte
 }
 
 // udParseHello walks a ClientHello handshake message (RFC 8446 4.1.2).
@@ -317,9 +321,13 @@ func udParseHello(ch []byte) (*udHello, error) {
 	if !skip(2 + 32) {
 		return nil, fmt.Errorf("ClientHello truncated")
 	}
-	for _, lb := range []int{1, 2, 1} { // session id, cipher suites, compression
-		if _, ok := vec(lb); !ok {
+	for i, lb := range []int{1, 2, 1} { // session id, cipher suites, compression
+		v, ok := vec(lb)
+		if !ok {
 			return nil, fmt.Errorf("ClientHello truncated")
+		}
+		if i == 1 {
+			h.Suites = append([]byte{}, v...)
 		}
 	}
 	exts, ok := vec(2)
@@ -1225,6 +1233,7 @@ func udSequence(o *udOut, r *u.Rng, name, qkey string, sp *quic.QUICSpec, dials 
 // ---- nil spec == plain Transport ---------------------------------------------------------
 
 type udShape struct {
+	Feat    []int64 // packet numbers, their lengths, extension ids, key shares (group, length), cipher suites, SNI length
 	Sizes   []int
 	SCIDLen int
 	PNs     []int64
@@ -1235,7 +1244,7 @@ type udShape struct {
 }
 
 func (s udShape) String() string {
-	return fmt.Sprintf("sizes=%v scidlen=%d pn=%v pnlen=%v tokenlen=%d frames=%q tp=%s", s.Sizes, s.SCIDLen, s.PNs, s.PNLens, s.TokLen, s.Frames, udParamsString(s.TP))
+	return fmt.Sprintf("sizes=%v scidlen=%d pn=%v pnlen=%v tokenlen=%d frames=%q tp=%s feat=%v", s.Sizes, s.SCIDLen, s.PNs, s.PNLens, s.TokLen, s.Frames, udParamsString(s.TP), s.Feat)
 }
 
 func udShapeOf(fl udFlight) (udShape, error) {
@@ -1277,12 +1286,55 @@ func udShapeOf(fl udFlight) (udShape, error) {
 		s.TP = append(s.TP, udParam{p.ID, v})
 	}
 	sort.Slice(s.TP, func(i, j int) bool { return s.TP[i].ID < s.TP[j].ID })
+	for _, pn := range s.PNs {
+		s.Feat = append(s.Feat, pn)
+	}
+	s.Feat = append(s.Feat, -1)
+	for _, l := range s.PNLens {
+		s.Feat = append(s.Feat, int64(l))
+	}
+	s.Feat = append(s.Feat, -1)
+	for _, id := range ob.Hello.ExtIDs {
+		s.Feat = append(s.Feat, int64(id))
+	}
+	s.Feat = append(s.Feat, -1)
+	for _, ks := range ob.Hello.KeyShares {
+		s.Feat = append(s.Feat, int64(ks.Group), int64(len(ks.Data)))
+	}
+	s.Feat = append(s.Feat, -1)
+	for i := 0; i+1 < len(ob.Hello.Suites); i += 2 {
+		s.Feat = append(s.Feat, int64(ob.Hello.Suites[i])<<8|int64(ob.Hello.Suites[i+1]))
+	}
+	s.Feat = append(s.Feat, -1, int64(len(ob.Hello.SNI)), int64(s.SCIDLen), int64(s.TokLen))
 	return s, nil
 }
 
 func udNilSpec(o *udOut, r *u.Rng) {
 	confs := []*quic.Config{nil, {InitialPacketSize: 1200}, {EnableDatagrams: true, MaxIncomingStreams: 7, InitialStreamReceiveWindow: 70000}, {Versions: []quic.Version{quic.Version2}}}
 	c := confs[r.Intn(len(confs))]
+	if r.Chance(2, 3) { // a random configuration
+		c = &quic.Config{
+			InitialPacketSize:              uint16([]int{0, 1200, 1252, 1300, 1350}[r.Intn(5)]), // larger datagrams do not pass the simulated link
+			EnableDatagrams:                r.Bool(),
+			InitialStreamReceiveWindow:     uint64([]int{0, 1 << 10, 70000, 1 << 20}[r.Intn(4)]),
+			InitialConnectionReceiveWindow: uint64([]int{0, 1 << 12, 200000, 1 << 21}[r.Intn(4)]),
+			MaxIncomingStreams:             int64([]int{0, -1, 1, 7, 1000}[r.Intn(5)]),
+			MaxIncomingUniStreams:          int64([]int{0, -1, 3, 100}[r.Intn(4)]),
+			MaxIdleTimeout:                 time.Duration([]int{0, 5, 45, 600}[r.Intn(4)]) * time.Second,
+			DisablePathMTUDiscovery:        r.Bool(),
+			Allow0RTT:                      r.Bool(),
+			EnableStreamResetPartialDelivery: r.Bool(),
+		}
+		if r.Bool() {
+			c.Versions = []quic.Version{quic.Version2, quic.Version1}
+		}
+		if c.MaxStreamReceiveWindow = 0; c.InitialStreamReceiveWindow > 0 {
+			c.MaxStreamReceiveWindow = c.InitialStreamReceiveWindow * 4
+		}
+		if c.InitialConnectionReceiveWindow > 0 {
+			c.MaxConnectionReceiveWindow = c.InitialConnectionReceiveWindow * 4
+		}
+	}
 	flU, err1 := udCapture(nil, false, "", c)
 	flP, err2 := udCapture(nil, true, "", c)
 	if err1 != nil || err2 != nil {
@@ -1314,7 +1366,7 @@ func udNilSpec(o *udOut, r *u.Rng) {
 		}
 		return u.List(s)
 	}
-	fmt.Fprintf(o.w, "CASE 1 %s\n", u.App("NilSpec", zl(sU.Sizes), u.List(tpU), zl(sP.Sizes), u.List(tpP)))
+	fmt.Fprintf(o.w, "CASE 1 %s\n", u.App("NilSpec", zl(sU.Sizes), u.List(tpU), u.ZList(sU.Feat), zl(sP.Sizes), u.List(tpP), u.ZList(sP.Feat)))
 }
 
 // ---- Initial CRYPTO retransmission bookkeeping on the real packer (case Retx) -------------
@@ -1490,6 +1542,7 @@ func udRetx(o *udOut, r *u.Rng, scripted bool) {
 	var hist []string
 	// --- the first flight ---
 	var flight []string
+	sentFrames := map[int64][]quic.VerifRange{} // CRYPTO frames of every packet sent
 	sent := make([]bool, n) // bytes that were on the wire at least once
 	var pns []int64
 	for i := 0; i < 64; i++ {
@@ -1524,6 +1577,7 @@ func udRetx(o *udOut, r *u.Rng, scripted bool) {
 			}
 		}
 		flight = append(flight, u.Pair(u.Z(pkt.PN), udRanges(pkt.Frames)))
+		sentFrames[pkt.PN] = pkt.Frames
 		pns = append(pns, pkt.PN)
 		hist = append(hist, fmt.Sprintf("sent pn%d %v", pkt.PN, pkt.Frames))
 	}
@@ -1608,6 +1662,7 @@ func udRetx(o *udOut, r *u.Rng, scripted bool) {
 					}
 				}
 				hist = append(hist, fmt.Sprintf("resent pn%d %v", pkt.PN, pkt.Frames))
+				sentFrames[pkt.PN] = pkt.Frames
 			}
 			ops = append(ops, u.App("RPack", u.B(probe), "false", udRanges(before), udRanges(popped), udRanges(after), u.B(udAsPacked(pkt)), res))
 			if dead || (pkt == nil && err == nil) {
@@ -1647,20 +1702,36 @@ func udRetx(o *udOut, r *u.Rng, scripted bool) {
 		}
 		ops = append(ops, u.App("RPack", "true", "true", udRanges(before), "[]", udRanges(rx.Queue()), u.B(udAsPacked(pkt)), res))
 	}
-	if !dead && len(rx.Outstanding()) > 0 {
-		// Handshake keys arrive while an Initial packet still has to be retransmitted: the
-		// datagram must stay within the maximum packet size and every packet in it must be
-		// where a receiver looks for it (no datagram padding between coalesced packets)
+	// Handshake keys arrive while an Initial packet still has to be retransmitted: the datagram
+	// must stay within the maximum packet size and every packet in it must be where a receiver
+	// looks for it (no datagram padding between coalesced packets)
+	victim := int64(-1)
+	if !dead {
 		outst := rx.Outstanding()
 		sort.Slice(outst, func(i, j int) bool { return outst[i] < outst[j] })
-		rx.Lose(outst[0])
+		for _, pn := range outst {
+			if len(sentFrames[pn]) > 0 {
+				victim = pn
+				break
+			}
+		}
+	}
+	if victim >= 0 {
+		rx.Lose(victim)
+		ops = append(ops, u.App("RLose", u.Z(victim)))
+		hist = append(hist, fmt.Sprintf("lost pn%d; Handshake keys + 300 bytes", victim))
 		rx.GiveHandshakeKeys(300)
+		before := rx.Queue()
 		pkt, err, pan := rx.Pack(false, false)
+		after := rx.Queue()
+		popped, _ := udPopped(before, after)
 		switch {
 		case pan != nil:
 			o.fail("udial/retx/coalesced", fmt.Sprintf("packing an Initial retransmission together with Handshake data panics: %v", pan), detail(strings.Join(hist, "; ")))
+			ops = append(ops, u.App("RCoalesce", udRanges(before), udRanges(popped), udRanges(after), "false", "0", u.App("RErr", "3")))
 		case err != nil:
 			o.fail("udial/retx/coalesced", "packing an Initial retransmission together with Handshake data fails: "+err.Error(), detail(strings.Join(hist, "; ")))
+			ops = append(ops, u.App("RCoalesce", udRanges(before), udRanges(popped), udRanges(after), "false", "0", u.App("RErr", "2")))
 		case pkt != nil:
 			// (a lone packet that a builder's own PING / PADDING frames push over the size is C10's subject)
 			if limit := max(1252, sp.UDPDatagramMinSize); pkt.Coalesced > 1 && pkt.Size > limit {
@@ -1669,6 +1740,7 @@ func udRetx(o *udOut, r *u.Rng, scripted bool) {
 				o.fail("udial/retx/coalesced", fmt.Sprintf("%d packets in one datagram with %d bytes of datagram padding in front of the last one: the receiver cannot find it", pkt.Coalesced, pkt.Gap), detail(strings.Join(hist, "; ")))
 			}
 			o.dist[fmt.Sprintf("retx coalesced=%d", pkt.Coalesced)]++
+			ops = append(ops, u.App("RCoalesce", udRanges(before), udRanges(popped), udRanges(after), u.B(udAsPacked(pkt)), u.Z(int64(pkt.Coalesced)), u.App("RPkt", u.Z(pkt.PN), udRanges(pkt.Frames))))
 		}
 	}
 	if !dead {
@@ -1684,6 +1756,228 @@ func udRetx(o *udOut, r *u.Rng, scripted bool) {
 	}
 	fmt.Fprintf(o.w, "CASE %d %s\n", nt, u.App("Retx", u.Z(int64(n)), u.B(planned), layout, u.List(flight), u.List(ops)))
 	_ = pns
+}
+
+
+// ---- handler registration across dials on ONE transport (case Reg) -------------------------
+
+func udRegID(b []byte) string { // connection ID as a number: 0 = empty, else 0x01 || bytes
+	if len(b) == 0 {
+		return "0"
+	}
+	n := new(big.Int).SetBytes(append([]byte{1}, b...))
+	return n.String()
+}
+
+// udReg: ONE UTransport, several dials through the real doDial against the in-tree server, each
+// followed by a close (local CONNECTION_CLOSE, remote CONNECTION_CLOSE, or immediate destroy) and
+// pauses shorter than any expiry (5 ms) or longer than all of them (2 s); after every step the
+// Transport's handler map is read for every source connection ID used so far.
+func udReg(o *udOut, r *u.Rng, scripted bool) {
+	name := parrotNames[r.Intn(len(parrotNames))]
+	if scripted {
+		name = "Chrome_115_IPv4"
+	}
+	sp, err := specFor(name)
+	if err != nil {
+		return
+	}
+	// Zero-length source connection IDs only (the Chrome parrots as they are, the Firefox ones
+	// edited): every dial then uses the SAME handler-map key, which is what the model is about.
+	// With a non-empty ID each dial has its own key, and the connection retires its first ID
+	// on its own schedule while it lives.
+	sp.InitialPacketSpec.SrcConnIDLength = 0
+	k := "udial/reg/"
+	var steps []string
+	var hist []string
+	berr := inBubble(func() {
+		e, err := newSimEnv(simOpts{Spec: sp})
+		if err != nil {
+			o.fail(k+"env", err.Error(), name)
+			return
+		}
+		defer e.Close()
+		sctx, scancel := context.WithCancel(context.Background())
+		defer scancel()
+		var smu sync.Mutex
+		var srvConns []*quic.Conn
+		go func() {
+			for {
+				c, err := e.Ln.Accept(sctx)
+				if err != nil {
+					return
+				}
+				smu.Lock()
+				srvConns = append(srvConns, c)
+				smu.Unlock()
+				go func(c *quic.Conn) {
+					for {
+						st, err := c.AcceptStream(sctx)
+						if err != nil {
+							return
+						}
+						go func() {
+							data, err := io.ReadAll(st)
+							if err == nil {
+								_, _ = st.Write(data)
+							}
+							st.Close()
+						}()
+					}
+				}(c)
+			}
+		}()
+		var ids [][]byte
+		var conns []*quic.Conn
+		observe := func() string {
+			var obs []string
+			for _, id := range ids {
+				kind, c := quic.UdialHandlerKind(e.CliTr, id)
+				owner := int64(0)
+				switch kind {
+				case 1:
+					for j, cc := range conns {
+						if cc == c {
+							owner = int64(j + 1)
+						}
+					}
+				case 2, 3:
+					kind = 2
+				}
+				obs = append(obs, u.Pair(udRegID(id), u.Z(int64(kind)), u.Z(owner)))
+			}
+			return u.List(obs)
+		}
+		step := func(op string) { steps = append(steps, u.App("GStep", op, observe())) }
+		nd := r.Range(2, 5)
+		if scripted {
+			nd = 3
+		}
+		for d := 1; d <= nd; d++ {
+			e.Router.mu.Lock()
+			from := len(e.Router.log)
+			e.Router.mu.Unlock()
+			ctx, cancel := context.WithTimeout(context.Background(), 20*time.Second)
+			conn, derr := e.Dial(ctx)
+			ok := derr == nil
+			if ok {
+				// the server's replies reach this connection: a small echo
+				st, err := conn.OpenStreamSync(ctx)
+				if err == nil {
+					_ = st.SetDeadline(time.Now().Add(20 * time.Second))
+					msg := streamBytes(d, 3000)
+					_, _ = st.Write(msg)
+					st.Close()
+					got, rerr := io.ReadAll(st)
+					ok = rerr == nil && bytes.Equal(got, msg)
+				} else {
+					ok = false
+				}
+			}
+			cancel()
+			var id []byte
+			e.Router.mu.Lock()
+			for _, dg := range e.Router.log[from:] {
+				if dg.Dir == 0 {
+					if pk, err := udOpen([][]byte{dg.Data}); err == nil && len(pk) > 0 {
+						id = pk[0].SCID
+					}
+					break
+				}
+			}
+			e.Router.mu.Unlock()
+			known := false
+			for _, x := range ids {
+				if bytes.Equal(x, id) {
+					known = true
+				}
+			}
+			if !known {
+				ids = append(ids, id)
+			}
+			conns = append(conns, conn)
+			hist = append(hist, fmt.Sprintf("dial#%d scid=%x ok=%v", d, id, ok))
+			if !ok {
+				o.fail(k+"not-routed", fmt.Sprintf("dial#%d through the same UTransport: the handshake or the echo fails (%v): the connection is not registered under its source connection ID, or loses the entry", d, derr), name+": "+strings.Join(hist, "; "))
+			}
+			step(u.App("GDial", u.Z(int64(d)), udRegID(id), u.B(ok)))
+			if kind, c := quic.UdialHandlerKind(e.CliTr, id); ok && (kind != 1 || c != conn) {
+				o.fail(k+"not-owner", fmt.Sprintf("after dial#%d the handler map does not hold that connection under its source connection ID (kind %d)", d, kind), name+": "+strings.Join(hist, "; "))
+			}
+			if conn == nil {
+				continue
+			}
+			// the connection lives for a while: timers of earlier connections fire under it
+			switch w := r.Intn(3); {
+			case scripted && d == 2, !scripted && w == 0:
+				time.Sleep(2 * time.Second)
+				hist = append(hist, "pause 2s (connection open)")
+				step("GWaitLong")
+				if kind, c := quic.UdialHandlerKind(e.CliTr, id); ok && (kind != 1 || c != conn) {
+					o.fail(k+"not-owner", fmt.Sprintf("2 s after dial#%d, connection still open: the handler map no longer holds it under its source connection ID (kind %d): an earlier connection's expiry removed the entry", d, kind), name+": "+strings.Join(hist, "; "))
+				}
+			case !scripted && w == 1:
+				time.Sleep(5 * time.Millisecond)
+				step("GWaitShort")
+			}
+			how := r.Intn(3)
+			if scripted {
+				how = 0
+			}
+			switch how {
+			case 0:
+				conn.CloseWithError(0, "")
+				time.Sleep(time.Millisecond)
+				hist = append(hist, fmt.Sprintf("close#%d local", d))
+				step(u.App("GClose", u.Z(int64(d)), udRegID(id)))
+			case 1:
+				smu.Lock()
+				var sc *quic.Conn
+				if len(srvConns) >= d {
+					sc = srvConns[d-1]
+				}
+				smu.Unlock()
+				if sc != nil {
+					sc.CloseWithError(7, "bye")
+				}
+				select {
+				case <-conn.Context().Done():
+				case <-time.After(time.Second):
+				}
+				time.Sleep(time.Millisecond)
+				hist = append(hist, fmt.Sprintf("close#%d remote", d))
+				step(u.App("GClose", u.Z(int64(d)), udRegID(id)))
+			default:
+				quic.UdialDestroy(conn, fmt.Errorf("verif: destroyed"))
+				time.Sleep(time.Millisecond)
+				hist = append(hist, fmt.Sprintf("destroy#%d", d))
+				step(u.App("GDestroy", u.Z(int64(d)), udRegID(id)))
+			}
+			switch w := r.Intn(4); {
+			case !scripted && w == 0:
+				time.Sleep(2 * time.Second)
+				hist = append(hist, "pause 2s")
+				step("GWaitLong")
+			case !scripted && w == 1:
+				time.Sleep(5 * time.Millisecond)
+				hist = append(hist, "pause 5ms")
+				step("GWaitShort")
+			}
+		}
+		time.Sleep(2 * time.Second)
+		step("GWaitLong")
+		for _, id := range ids {
+			if kind, _ := quic.UdialHandlerKind(e.CliTr, id); kind != 0 {
+				o.fail(k+"leak", fmt.Sprintf("2 s after the last connection was closed the handler map still holds an entry (kind %d) under source connection ID %x", kind, id), name+": "+strings.Join(hist, "; "))
+			}
+		}
+	})
+	if berr != nil {
+		o.fail(k+"leak-or-panic", berr.Error(), name+": "+strings.Join(hist, "; "))
+		return
+	}
+	o.dist["reg"]++
+	fmt.Fprintf(o.w, "CASE 1 %s\n", u.App("Reg", u.List(steps)))
 }
 
 
@@ -1720,6 +2014,8 @@ func runUDial(w *bufio.Writer, seed uint64, n int, args []string) {
 		switch {
 		case i%8 == 7 && only == "":
 			udNilSpec(o, rr)
+		case i%8 == 3 && (i/8)%2 == 0 && only == "":
+			udReg(o, rr, i == 3)
 		case i%4 == 1 && only == "":
 			udRetx(o, rr, i == 1)
 			o.dist["retx"]++
